@@ -43,6 +43,20 @@ pub trait Uni: Sized {
 	}
 	/// minimum encoded length of any value of the type
 	fn min_wire() -> usize;
+	/// bytes of memory a decode may hold per input byte consumed (element size over minimum
+	/// wire length, maximised over the element types stored by containers), and the fixed
+	/// allowance (boxes, first chunks) a decode may reserve before reading anything
+	fn mem_rate() -> usize {
+		1
+	}
+	fn mem_allow() -> usize {
+		0
+	}
+	/// some container inside the type stores elements (or boxes values) that may occupy no
+	/// input: its allocation follows the claimed count, not the input (known finding F4)
+	fn zero_wire_container() -> bool {
+		false
+	}
 	/// a sequence whose elements may occupy no input at all: a hostile count is then not
 	/// bounded by the input (known finding F4), so the harness caps the count it feeds
 	fn zst_seq() -> bool {
@@ -61,7 +75,7 @@ fn len_for(r: &mut Rng, d: u32, esz: usize) -> usize {
 			_ => r.below(5) as usize,
 		};
 	}
-	if r.chance(1, 48) {
+	if r.chance(1, 48) || (r.bigbias && r.chance(2, 3)) {
 		// straddle the 16 KiB preallocation window
 		let per = if esz == 0 { 16384 } else { (16384 / esz).max(1) };
 		let k = r.range(1, 2) as usize;
@@ -241,6 +255,15 @@ impl<T: Uni> Uni for Option<T> {
 	fn key_ok() -> bool {
 		T::key_ok()
 	}
+	fn mem_rate() -> usize {
+		T::mem_rate()
+	}
+	fn mem_allow() -> usize {
+		T::mem_allow()
+	}
+	fn zero_wire_container() -> bool {
+		T::zero_wire_container()
+	}
 	fn min_wire() -> usize {
 		1
 	}
@@ -289,6 +312,15 @@ impl<T: Uni, E: Uni> Uni for Result<T, E> {
 	}
 	fn key_ok() -> bool {
 		T::key_ok() && E::key_ok()
+	}
+	fn mem_rate() -> usize {
+		T::mem_rate().max(E::mem_rate())
+	}
+	fn mem_allow() -> usize {
+		T::mem_allow().max(E::mem_allow())
+	}
+	fn zero_wire_container() -> bool {
+		T::zero_wire_container() || E::zero_wire_container()
 	}
 	fn min_wire() -> usize {
 		1
@@ -375,8 +407,18 @@ impl<T: Uni> Uni for Vec<T> {
 	fn key_ok() -> bool {
 		T::key_ok()
 	}
+	fn mem_rate() -> usize {
+		let per = if T::min_wire() == 0 { size_of::<T>() } else { (size_of::<T>() + T::min_wire() - 1) / T::min_wire() };
+		per.max(1) + T::mem_rate() + T::mem_allow()
+	}
+	fn mem_allow() -> usize {
+		16384 + T::mem_allow()
+	}
 	fn zst_seq() -> bool {
 		T::min_wire() == 0
+	}
+	fn zero_wire_container() -> bool {
+		T::min_wire() == 0 || T::zero_wire_container()
 	}
 	fn min_wire() -> usize {
 		1
@@ -416,8 +458,18 @@ impl<T: Uni> Uni for VecDeque<T> {
 	fn payload(&self) -> u128 {
 		(self.len() * size_of::<T>()) as u128 + self.iter().map(|x| x.payload()).sum::<u128>()
 	}
+	fn mem_rate() -> usize {
+		let per = if T::min_wire() == 0 { size_of::<T>() } else { (size_of::<T>() + T::min_wire() - 1) / T::min_wire() };
+		per.max(1) + T::mem_rate() + T::mem_allow()
+	}
+	fn mem_allow() -> usize {
+		16384 + T::mem_allow()
+	}
 	fn zst_seq() -> bool {
 		T::min_wire() == 0
+	}
+	fn zero_wire_container() -> bool {
+		T::min_wire() == 0 || T::zero_wire_container()
 	}
 	fn min_wire() -> usize {
 		1
@@ -451,8 +503,18 @@ impl<T: Uni + Ord> Uni for BinaryHeap<T> {
 	fn payload(&self) -> u128 {
 		(self.len() * size_of::<T>()) as u128 + self.iter().map(|x| x.payload()).sum::<u128>()
 	}
+	fn mem_rate() -> usize {
+		let per = if T::min_wire() == 0 { size_of::<T>() } else { (size_of::<T>() + T::min_wire() - 1) / T::min_wire() };
+		per.max(1) + T::mem_rate() + T::mem_allow()
+	}
+	fn mem_allow() -> usize {
+		16384 + T::mem_allow()
+	}
 	fn zst_seq() -> bool {
 		T::min_wire() == 0
+	}
+	fn zero_wire_container() -> bool {
+		T::min_wire() == 0 || T::zero_wire_container()
 	}
 	fn min_wire() -> usize {
 		1
@@ -483,8 +545,19 @@ impl<T: Uni> Uni for LinkedList<T> {
 	fn payload(&self) -> u128 {
 		(self.len() * size_of::<T>()) as u128 + self.iter().map(|x| x.payload()).sum::<u128>()
 	}
+	fn mem_rate() -> usize {
+		let node = size_of::<(usize, usize, T)>();
+		let per = if T::min_wire() == 0 { node } else { (node + T::min_wire() - 1) / T::min_wire() };
+		per + T::mem_rate() + T::mem_allow()
+	}
+	fn mem_allow() -> usize {
+		64 + T::mem_allow()
+	}
 	fn zst_seq() -> bool {
 		T::min_wire() == 0
+	}
+	fn zero_wire_container() -> bool {
+		T::min_wire() == 0 || T::zero_wire_container()
 	}
 	fn min_wire() -> usize {
 		1
@@ -511,6 +584,16 @@ impl<T: Uni + Ord> Uni for BTreeSet<T> {
 	}
 	fn payload(&self) -> u128 {
 		(self.len() * size_of::<T>()) as u128 + self.iter().map(|x| x.payload()).sum::<u128>()
+	}
+	fn mem_rate() -> usize {
+		let leaf = size_of::<(usize, u16, u16, [T; 11])>() + 96;
+		(leaf / 4 + 32) / T::min_wire().max(1) + T::mem_rate() + T::mem_allow()
+	}
+	fn mem_allow() -> usize {
+		size_of::<(usize, u16, u16, [T; 11])>() + 96 + T::mem_allow()
+	}
+	fn zero_wire_container() -> bool {
+		T::min_wire() == 0 || T::zero_wire_container()
 	}
 	fn min_wire() -> usize {
 		1
@@ -551,6 +634,16 @@ impl<K: Uni + Ord, V: Uni> Uni for BTreeMap<K, V> {
 	fn payload(&self) -> u128 {
 		(self.len() * size_of::<(K, V)>()) as u128 + self.iter().map(|(k, v)| k.payload() + v.payload()).sum::<u128>()
 	}
+	fn mem_rate() -> usize {
+		let leaf = size_of::<(usize, u16, u16, [(K, V); 11])>() + 96;
+		(leaf / 4 + 32) / (K::min_wire() + V::min_wire()).max(1) + K::mem_rate() + V::mem_rate() + K::mem_allow() + V::mem_allow()
+	}
+	fn mem_allow() -> usize {
+		size_of::<(usize, u16, u16, [(K, V); 11])>() + 96 + K::mem_allow() + V::mem_allow()
+	}
+	fn zero_wire_container() -> bool {
+		K::min_wire() + V::min_wire() == 0 || K::zero_wire_container() || V::zero_wire_container()
+	}
 	fn min_wire() -> usize {
 		1
 	}
@@ -580,6 +673,15 @@ impl<T: Uni, const N: usize> Uni for [T; N] {
 	}
 	fn key_ok() -> bool {
 		T::key_ok()
+	}
+	fn mem_rate() -> usize {
+		T::mem_rate()
+	}
+	fn mem_allow() -> usize {
+		N * T::mem_allow()
+	}
+	fn zero_wire_container() -> bool {
+		T::zero_wire_container()
 	}
 	fn min_wire() -> usize {
 		N * T::min_wire()
@@ -611,6 +713,12 @@ impl Uni for String {
 	fn key_ok() -> bool {
 		true
 	}
+	fn mem_rate() -> usize {
+		2
+	}
+	fn mem_allow() -> usize {
+		16384
+	}
 	fn min_wire() -> usize {
 		1
 	}
@@ -627,6 +735,9 @@ macro_rules! box_uni {
 			fn depth(&self) -> u32 { 1 + (**self).depth() }
 			fn payload(&self) -> u128 { size_of::<T>() as u128 + (**self).payload() }
 			fn key_ok() -> bool { T::key_ok() }
+			fn mem_rate() -> usize { T::mem_rate() }
+			fn zero_wire_container() -> bool { T::zero_wire_container() }
+			fn mem_allow() -> usize { size_of::<T>() + 64 + T::mem_allow() }
 			fn min_wire() -> usize { T::min_wire() }
 		}
 	)*};
@@ -668,6 +779,12 @@ impl<T: Uni> Uni for std::ops::Range<T> {
 	fn same(&self, o: &Self) -> bool {
 		self.start.same(&o.start) && self.end.same(&o.end)
 	}
+	fn mem_rate() -> usize {
+		T::mem_rate()
+	}
+	fn mem_allow() -> usize {
+		2 * T::mem_allow()
+	}
 	fn min_wire() -> usize {
 		2 * T::min_wire()
 	}
@@ -685,6 +802,12 @@ impl<T: Uni> Uni for std::ops::RangeInclusive<T> {
 	fn same(&self, o: &Self) -> bool {
 		self.start().same(o.start()) && self.end().same(o.end())
 	}
+	fn mem_rate() -> usize {
+		T::mem_rate()
+	}
+	fn mem_allow() -> usize {
+		2 * T::mem_allow()
+	}
 	fn min_wire() -> usize {
 		2 * T::min_wire()
 	}
@@ -701,6 +824,8 @@ macro_rules! bits_uni {
 			fn val(&self) -> String { bits_val(self.len(), self.iter().map(|b| *b)) }
 			fn same(&self, o: &Self) -> bool { self == o }
 			fn payload(&self) -> u128 { ((self.len() + 8 * $b - 1) / (8 * $b) * $b) as u128 }
+			fn mem_rate() -> usize { 2 }
+			fn mem_allow() -> usize { 16384 }
 			fn min_wire() -> usize { 1 }
 		}
 		impl Uni for BitVec<$t, Msb0> {
@@ -709,6 +834,8 @@ macro_rules! bits_uni {
 			fn val(&self) -> String { bits_val(self.len(), self.iter().map(|b| *b)) }
 			fn same(&self, o: &Self) -> bool { self == o }
 			fn payload(&self) -> u128 { ((self.len() + 8 * $b - 1) / (8 * $b) * $b) as u128 }
+			fn mem_rate() -> usize { 2 }
+			fn mem_allow() -> usize { 16384 }
 			fn min_wire() -> usize { 1 }
 		}
 	)*};
@@ -757,6 +884,12 @@ impl Uni for bytes::Bytes {
 	fn payload(&self) -> u128 {
 		self.len() as u128
 	}
+	fn mem_rate() -> usize {
+		3
+	}
+	fn mem_allow() -> usize {
+		16384 + 128
+	}
 	fn min_wire() -> usize {
 		1
 	}
@@ -779,6 +912,9 @@ macro_rules! tuple_uni {
 			fn depth(&self) -> u32 { 0 $(.max(self.$i.depth()))+ }
 			fn payload(&self) -> u128 { 0 $(+ self.$i.payload())+ }
 			fn key_ok() -> bool { true $(&& $n::key_ok())+ }
+			fn mem_rate() -> usize { 0 $(.max($n::mem_rate()))+ }
+			fn zero_wire_container() -> bool { false $(|| $n::zero_wire_container())+ }
+			fn mem_allow() -> usize { 0 $(+ $n::mem_allow())+ }
 			fn min_wire() -> usize { 0 $(+ $n::min_wire())+ }
 		}
 	)*};
@@ -849,6 +985,93 @@ pub struct G<T> {
 #[repr(transparent)]
 pub struct Tr(pub [u16; 3]);
 
+/// transparent newtypes whose field has an attribute: the in-place `decode_into` generated for
+/// `#[repr(transparent)]` must not be used for them (only reachable through Box / arrays)
+#[derive(Encode, Decode, DecodeWithMemTracking, Debug, PartialEq, Clone)]
+#[repr(transparent)]
+pub struct TrC(#[codec(compact)] pub u64, pub PhantomData<u8>);
+#[derive(Encode, Decode, DecodeWithMemTracking, Debug, PartialEq, Clone)]
+#[repr(transparent)]
+pub struct TrK(#[codec(compact)] pub u32);
+#[derive(Encode, Decode, DecodeWithMemTracking, Debug, PartialEq, Clone)]
+#[repr(transparent)]
+pub struct TrP(pub PhantomData<u16>, pub [u8; 3], #[codec(skip)] pub ());
+/// every field skipped: a type that occupies memory but no wire bytes
+#[derive(Encode, Decode, DecodeWithMemTracking, Debug, PartialEq, Clone, Default)]
+pub struct AllSk {
+	#[codec(skip)]
+	pub a: u32,
+	#[codec(skip)]
+	pub b: u8,
+}
+impl Uni for TrC {
+	fn desc() -> String {
+		nest("TPair", "TUnit", &["(TCompact 8)".into(), "TUnit".into()])
+	}
+	fn gen(r: &mut Rng, d: u32) -> Self {
+		TrC(u64::gen(r, d), PhantomData)
+	}
+	fn val(&self) -> String {
+		nest("VPair", "VUnit", &[format!("(VN {})", self.0), "VUnit".into()])
+	}
+	fn same(&self, o: &Self) -> bool {
+		self == o
+	}
+	fn min_wire() -> usize {
+		1
+	}
+}
+impl Uni for TrK {
+	fn desc() -> String {
+		nest("TPair", "TUnit", &["(TCompact 4)".into()])
+	}
+	fn gen(r: &mut Rng, d: u32) -> Self {
+		TrK(u32::gen(r, d))
+	}
+	fn val(&self) -> String {
+		nest("VPair", "VUnit", &[format!("(VN {})", self.0)])
+	}
+	fn same(&self, o: &Self) -> bool {
+		self == o
+	}
+	fn min_wire() -> usize {
+		1
+	}
+}
+impl Uni for TrP {
+	fn desc() -> String {
+		nest("TPair", "TUnit", &["TUnit".into(), <[u8; 3]>::desc()])
+	}
+	fn gen(r: &mut Rng, d: u32) -> Self {
+		TrP(PhantomData, Uni::gen(r, d), ())
+	}
+	fn val(&self) -> String {
+		nest("VPair", "VUnit", &["VUnit".into(), self.1.val()])
+	}
+	fn same(&self, o: &Self) -> bool {
+		self == o
+	}
+	fn min_wire() -> usize {
+		3
+	}
+}
+impl Uni for AllSk {
+	fn desc() -> String {
+		"TUnit".into()
+	}
+	fn gen(_: &mut Rng, _: u32) -> Self {
+		AllSk::default()
+	}
+	fn val(&self) -> String {
+		"VUnit".into()
+	}
+	fn same(&self, o: &Self) -> bool {
+		self == o
+	}
+	fn min_wire() -> usize {
+		0
+	}
+}
 impl Uni for S1 {
 	fn desc() -> String {
 		nest("TPair", "TUnit", &[u8::desc(), u32::desc()])
@@ -887,6 +1110,12 @@ impl Uni for S2 {
 	}
 	fn payload(&self) -> u128 {
 		self.0.payload()
+	}
+	fn mem_rate() -> usize {
+		Vec::<u16>::mem_rate()
+	}
+	fn mem_allow() -> usize {
+		Vec::<u16>::mem_allow()
 	}
 	fn min_wire() -> usize {
 		2
@@ -1011,6 +1240,12 @@ impl Uni for E1 {
 			_ => 0,
 		}
 	}
+	fn mem_rate() -> usize {
+		Vec::<u8>::mem_rate()
+	}
+	fn mem_allow() -> usize {
+		Vec::<u8>::mem_allow() + 128
+	}
 	fn min_wire() -> usize {
 		1
 	}
@@ -1058,6 +1293,15 @@ impl<T: Uni> Uni for G<T> {
 	}
 	fn payload(&self) -> u128 {
 		self.t.payload()
+	}
+	fn mem_rate() -> usize {
+		T::mem_rate()
+	}
+	fn mem_allow() -> usize {
+		T::mem_allow()
+	}
+	fn zero_wire_container() -> bool {
+		T::zero_wire_container()
 	}
 	fn min_wire() -> usize {
 		T::min_wire() + 1
